@@ -16,7 +16,7 @@ func init() {
 
 func runC04(cx *ctx) {
 	r := cx.rng
-	for i := 0; i < cx.n(150, 3000); i++ {
+	for i := 0; i < cx.n(1000, 10000); i++ {
 		rr := r.Fork()
 		cx.ru.Do(func() *h.Case {
 			var ps []*party
